@@ -20,7 +20,7 @@ def judge_c08(case, log):
         h = R.series_history(case, log, sid)
         if not h:
             continue
-        valid_ts = [ev[1][0] for ev in h if ev[0] == "recv" and ev[1][2] == 0]
+        valid_ts = [ev[1][0] for ev in h if ev[0] == "recv" and ev[1][2] not in (1, 2)]
         ordered = all(a <= b for a, b in zip(valid_ts, valid_ts[1:]))
         cap = case["init_len"]
         buf = []
@@ -28,7 +28,7 @@ def judge_c08(case, log):
         wrong_cap = None
         for ev in h:
             if ev[0] == "recv":
-                if ev[1][2] == 0:
+                if ev[1][2] not in (1, 2):
                     buf.append(ev[1])
                     buf = buf[-cap:]
                 continue
@@ -51,7 +51,7 @@ def judge_c08(case, log):
             peff = p if sp is None else max(p, sp)
             lo = T - R._div_round_he(peff * an, ad)
             expected = [x for x in buf if lo < x[0] <= T]
-            if any(x[2] != 0 for x in passed):
+            if any(x[2] in (1, 2) for x in passed):
                 out.append(f"invalid: series {sid} tick {T}: a None/NaN sample was handed to the resampling function: {passed}")
                 break
             if any(x[0] > T for x in passed) and ordered:
@@ -133,7 +133,7 @@ class C08Stream(R.ScenarioStream):
         an, ad = case["age"]
         for sid in range(len(case["series"])):
             h = R.series_history(case, log, sid)
-            ts_valid = [ev[1][0] for ev in h if ev[0] == "recv" and ev[1][2] == 0]
+            ts_valid = [ev[1][0] for ev in h if ev[0] == "recv" and ev[1][2] not in (1, 2)]
             if not all(a <= b for a, b in zip(ts_valid, ts_valid[1:])):
                 out.append("not_time_ordered(correspondence only)")
             cap = case["init_len"]
@@ -154,18 +154,22 @@ class C08Stream(R.ScenarioStream):
                 lastsp = sp
                 peff = p if sp is None else max(p, sp)
                 lo = T - R._div_round_he(peff * an, ad)
-                if any(x[0] == T and x[2] == 0 for x in seen):
+                if any(x[0] == T and x[2] not in (1, 2) for x in seen):
                     out.append("sample_stamped_exactly_T")
-                if any(x[0] == lo and x[2] == 0 for x in seen):
+                if any(x[0] == lo and x[2] not in (1, 2) for x in seen):
                     out.append("sample_stamped_exactly_T-age*period")
                     if sp is not None and sp > p:
                         out.append("sample_stamped_exactly_T-age*input_period(upsampling)")
-                if any(x[0] > T and x[2] == 0 for x in seen):
+                if any(x[0] > T and x[2] not in (1, 2) for x in seen):
                     out.append("future_stamped_sample_buffered_at_tick")
                 if val is None:
                     out.append("emitted_None")
                 if len(passed) >= cap and cap > 0:
                     out.append("window_limited_by_buffer")
+            if any(ev[0] == "recv" and ev[1][2] >= 3 for ev in h):
+                out.append("inf_or_huge_sample")
+            if any(ev[0] == "tick" and ev[3] in ("nan", "inf", "-inf") for ev in h):
+                out.append("emitted_value_nan_or_inf")
             if any(ev[0] == "recv" and ev[1][2] == 1 for ev in h):
                 out.append("None_sample")
             if any(ev[0] == "recv" and ev[1][2] == 2 for ev in h):
